@@ -51,29 +51,29 @@ Qed.
 (* the section a call is made on *)
 Definition target (o : gop) : option nat :=
   match o with
-  | GCreate => None
-  | GWrite i _ _ _ | GOverwrite i _ | GClear i _ | GIndent i _ | GSetQuiet i _ | GSetVerbosity i _ => Some i
+  | GCreate | GParentQuiet _ | GParentVerbosity _ | GParentIndent _ => None      (* section(); calls on the output itself *)
+  | GWrite i _ _ _ | GOverwrite i _ | GClear i _ | GIndent i _ | GSetQuiet i _ | GSetVerbosity i _ | GAddContent i _ => Some i
   end.
 (* the flags a call asks its section's gate with (None for overwrite / clear, which have no flags parameter) *)
 Definition gate_asked (o : gop) : option (nat * option Z) :=
   match o with
   | GWrite i _ f _ => Some (i, f)
-  | GOverwrite i _ | GClear i _ => Some (i, None)
+  | GOverwrite i _ | GClear i _ | GAddContent i _ => Some (i, None)
   | _ => None
   end.
 (* the call names an existing section (GCreate names none) *)
 Definition in_range (st : secs) (gs : gates) (o : gop) : Prop :=
-  match target o with Some i => i < length st /\ i < length gs | None => True end.
+  match target o with Some i => i < length st /\ i < length (g_secs gs) | None => True end.
 
 (* in range, the gate asked is the one of the section itself ... *)
-Lemma allowed_in_range_lemma gs o i fl g : gate_asked o = Some (i, fl) -> nth_error gs i = Some g ->
+Lemma allowed_in_range_lemma gs o i fl g : gate_asked o = Some (i, fl) -> nth_error (g_secs gs) i = Some g ->
   allowed gs o = may_write (g_quiet g) (g_verb g) fl.
 Proof.
   intros Ha Hg. assert (g = gate_of gs i) as -> by (unfold gate_of; symmetry; now apply nth_error_nth).
   destruct o; cbn in Ha; inversion Ha; subst; reflexivity.
 Qed.
 (* ... out of range it is the `nth` default, a fresh gate *)
-Lemma allowed_out_of_range_lemma gs o i fl : gate_asked o = Some (i, fl) -> length gs <= i ->
+Lemma allowed_out_of_range_lemma gs o i fl : gate_asked o = Some (i, fl) -> length (g_secs gs) <= i ->
   allowed gs o = may_write false NORMAL fl.
 Proof.
   intros Ha Hl. assert (gate_of gs i = new_gate) as Eg by (unfold gate_of; now apply nth_overflow).
@@ -81,19 +81,20 @@ Proof.
 Qed.
 
 (* a call on an index that names no section is the identity and returns Ok - whether its flags would pass or not *)
-Lemma gstep_nonexistent_section_lemma ansi w st gs f o i : target o = Some i -> length st <= i -> length gs <= i ->
+Lemma gstep_nonexistent_section_lemma ansi w st gs f o i : target o = Some i -> length st <= i -> length (g_secs gs) <= i ->
   gstep ansi w st gs f o = Ok (st, gs, f, []).
 Proof.
   intros Ht Hs Hg. assert (nth_error st i = None) as Es by now apply nth_error_None.
-  assert (nth_error gs i = None) as Eg by now apply nth_error_None.
+  assert (nth_error (g_secs gs) i = None) as Eg by now apply nth_error_None.
   destruct o; cbn in Ht; inversion Ht; subst; unfold gstep; cbn [sop_of gates_step]; rewrite ?Eg; try reflexivity;
-    (destruct (allowed gs _); [|reflexivity]); unfold sec_step; destruct ansi; cbn [sstep sstep_ansi sstep_plain]; rewrite ?Es; cbn [bind fst snd]; rewrite ?Es; reflexivity.
+    (destruct (allowed gs _); [|reflexivity]); unfold sec_step; destruct ansi;
+    cbn [sstep sstep_ansi sstep_plain]; unfold add_content_step; rewrite ?Es; cbn [bind fst snd]; rewrite ?Es; reflexivity.
 Qed.
 
 (* in range, the step: refused iff the section's OWN gate refuses the flags asked, and then the identity; otherwise the
    Section.v step of that (existing) section, the settings untouched *)
-Lemma gstep_in_range_lemma ansi w st gs f o i fl g so : gate_asked o = Some (i, fl) -> sop_of o = Some so ->
-  nth_error gs i = Some g ->
+Lemma gstep_in_range_lemma ansi w st gs f o i fl g so : gate_asked o = Some (i, fl) -> sop_of gs o = Some so ->
+  nth_error (g_secs gs) i = Some g ->
   gstep ansi w st gs f o =
     if may_write (g_quiet g) (g_verb g) fl
     then do a <- sec_step ansi w st f so; Ok (fst (fst a), gs, snd (fst a), snd a)
@@ -113,10 +114,13 @@ Proof.
   rewrite firstn_length, skipn_length. lia.
 Qed.
 Lemma sstep_ansi_length w st f so st' f' es : sstep_ansi w st f so = Ok (st', f', es) ->
-  length st' = length st + match so with SCreate => 1 | _ => 0 end.
+  length st' = length st + match so with SCreate _ => 1 | _ => 0 end.
 Proof.
-  destruct so as [|i text nl|i text|i n|i n]; cbn [sstep_ansi]; intros H.
+  destruct so as [ind|i0 text0|i text nl|i text|i n|i n]; cbn [sstep_ansi]; intros H.
   - inversion H; subst. rewrite app_length. cbn. lia.
+  - unfold add_content_step in H. destruct (nth_error st i0) eqn:E; [|inversion H; subst; lia].
+    destruct (measure w f _ _) as [m|]; cbn [bind] in H; [|discriminate].
+    inversion H; subst. rewrite (set_sec_length _ _ _ _ E). lia.
   - destruct (nth_error st i) eqn:E; [|inversion H; subst; lia].
     destruct (measure w f _ _) as [m|]; cbn [bind] in H; [|discriminate].
     destruct (format (fst m) _ None) as [x|]; cbn [bind] in H; [|discriminate].
@@ -131,16 +135,19 @@ Proof.
   - destruct (nth_error st i) eqn:E; inversion H; subst; [rewrite (set_sec_length _ _ _ _ E)|]; lia.
 Qed.
 Lemma sec_step_length ansi w st f so st' f' es : sec_step ansi w st f so = Ok (st', f', es) ->
-  length st' = length st + match so with SCreate => 1 | _ => 0 end.
+  length st' = length st + match so with SCreate _ => 1 | _ => 0 end.
 Proof.
   unfold sec_step. destruct ansi.
-  - destruct so as [|i text nl|i text|i n|i n]; try apply sstep_ansi_length.
+  - destruct so as [ind|i0 text0|i text nl|i text|i n|i n]; try apply sstep_ansi_length.
     cbn [sstep]. intros H.
     destruct (sstep_ansi w st f (SClear i None)) as [[[st1 f1] e1]|] eqn:E1; cbn [bind fst snd] in H; [|discriminate].
     destruct (sstep_ansi w st1 f1 (SWrite i text true)) as [[[st2 f2] e2]|] eqn:E2; cbn [bind fst snd] in H; [|discriminate].
     inversion H; subst. apply sstep_ansi_length in E1, E2. lia.
-  - destruct so as [|i text nl|i text|i n|i n]; cbn [sstep_plain]; intros H.
+  - destruct so as [ind|i0 text0|i text nl|i text|i n|i n]; cbn [sstep_plain]; intros H.
     + inversion H; subst. rewrite app_length. cbn. lia.
+    + unfold add_content_step in H. destruct (nth_error st i0) eqn:E; [|inversion H; subst; lia].
+      destruct (measure w f _ _) as [m|]; cbn [bind] in H; [|discriminate].
+      inversion H; subst. rewrite (set_sec_length _ _ _ _ E). lia.
     + destruct (nth_error st i) eqn:E; [|inversion H; subst; lia].
       destruct (write_plain f _ text nl); cbn [bind] in H; inversion H; subst; lia.
     + destruct (nth_error st i) eqn:E; [|inversion H; subst; lia].
@@ -149,9 +156,9 @@ Proof.
     + destruct (nth_error st i) eqn:E; inversion H; subst; [rewrite (set_sec_length _ _ _ _ E)|]; lia.
 Qed.
 Lemma gstep_parallel ansi w st gs f o st' gs' f' es :
-  gstep ansi w st gs f o = Ok (st', gs', f', es) -> length gs = length st -> length gs' = length st'.
+  gstep ansi w st gs f o = Ok (st', gs', f', es) -> length (g_secs gs) = length st -> length (g_secs gs') = length st'.
 Proof.
-  unfold gstep. destruct (sop_of o) as [so|] eqn:Eso.
+  unfold gstep. destruct (sop_of gs o) as [so|] eqn:Eso.
   - destruct (allowed gs o); [|intros H; inversion H; subst; auto].
     destruct (sec_step ansi w st f so) as [[[st1 f1] e1]|] eqn:E; cbn [bind fst snd]; [|discriminate].
     intros H Hl. inversion H; subst. rewrite gates_step_length, (sec_step_length _ _ _ _ _ _ _ _ E), Hl.
@@ -159,7 +166,7 @@ Proof.
   - intros H Hl. inversion H; subst. rewrite gates_step_length, Hl. destruct o; cbn in Eso; try discriminate; lia.
 Qed.
 Lemma grun_parallel_lemma ansi w : forall ops st gs f st' gs' f' es,
-  grun ansi w st gs f ops = Ok (st', gs', f', es) -> length gs = length st -> length gs' = length st'.
+  grun ansi w st gs f ops = Ok (st', gs', f', es) -> length (g_secs gs) = length st -> length (g_secs gs') = length st'.
 Proof.
   induction ops as [|o r IH]; intros st gs f st' gs' f' es H Hl; cbn [grun] in H.
   - inversion H; subst. exact Hl.
